@@ -250,6 +250,7 @@ def run(ck, prog, ctx):
         outer = [l for l in loops if not any(l is not m and l["blocks"] < m["blocks"] for m in loops)]
         inner = [l for l in loops if any(l is not m and l["blocks"] < m["blocks"] for m in loops)]
         ret = [st for _, st in cc.stmts() if st.k == "assign" and st.place.is_local() and st.place.local == 0 and st.rv["k"] == "agg" and st.rv["agg"] == "tuple" and len(st.rv["ops"]) == 2]
+        pv = Prov(prog)
         if len(outer) != 1 or len(ret) != 1 or params_of(pv.of_operand(cc, outer[0]["iter"]), cc.id) != {1}:
             ck.undecided("ROLE", "counts/every-term", "calculate_counts is not one `for` loop over its `terms` parameter returning (size, counts)", where=cc.where())
         else:
